@@ -147,7 +147,7 @@ def clamp_to_type(v, ty, widen=True):
         tail = None
     if widen and hi - lo >= MAX_SET:
         big = [x for x in vals if x >= WIDEN_AT]
-        if big and (len(vals) > 1 or tail is not None):
+        if big or (tail is not None and tail > WIDEN_AT):
             tail = WIDEN_AT if tail is None else min(tail, WIDEN_AT)
     return mk_int(vals, tail)
 
@@ -353,6 +353,118 @@ class CallInfo:
         return (self.site(), self.span)
 
 
+def _place_uses(pl, out):
+    out.add(pl['l'])
+    for e in pl['p']:
+        if e['k'] == 'index':
+            out.add(e['l'])
+
+
+def _op_uses(o, out):
+    if o.get('k') in ('copy', 'move'):
+        _place_uses(o['place'], out)
+
+
+def _rv_uses(rv, out, borrowed):
+    k = rv['k']
+    if k in ('use', 'cast', 'repeat'):
+        _op_uses(rv['op'], out)
+    elif k in ('ref', 'rawptr'):
+        _place_uses(rv['place'], out)
+        if not any(e['k'] == 'deref' for e in rv['place']['p']):
+            borrowed.add(rv['place']['l'])
+    elif k == 'bin':
+        _op_uses(rv['l'], out)
+        _op_uses(rv['r'], out)
+    elif k == 'un':
+        _op_uses(rv['x'], out)
+    elif k == 'discr':
+        _place_uses(rv['place'], out)
+    elif k == 'agg':
+        for o in rv['ops']:
+            _op_uses(o, out)
+
+
+_LIVE_CACHE = {}
+
+
+def liveness(fn):
+    """-> (live_in: list[set(local)], borrowed: set(local)) by backward dataflow over the MIR CFG."""
+    key = id(fn.body)
+    if key in _LIVE_CACHE:
+        return _LIVE_CACHE[key]
+    blocks = fn.blocks
+    n = len(blocks)
+    use = [set() for _ in range(n)]
+    defs = [set() for _ in range(n)]
+    borrowed = set()
+    succ = [[] for _ in range(n)]
+    for i, b in enumerate(blocks):
+        u, d = set(), set()
+
+        def add_uses(xs):
+            for x in xs:
+                if x not in d:
+                    u.add(x)
+        for s in b['stmts']:
+            if s['k'] == 'assign':
+                tmp = set()
+                _rv_uses(s['rv'], tmp, borrowed)
+                if s['place']['p']:
+                    _place_uses(s['place'], tmp)
+                    add_uses(tmp)
+                else:
+                    add_uses(tmp)
+                    d.add(s['place']['l'])
+            elif s['k'] == 'setdiscr':
+                tmp = set()
+                _place_uses(s['place'], tmp)
+                add_uses(tmp)
+        t = b['term']
+        k = t['k']
+        tmp = set()
+        if k == 'switch':
+            _op_uses(t['op'], tmp)
+            succ[i] = list(t['targets']) + [t['otherwise']]
+        elif k == 'call':
+            for a in t['args']:
+                _op_uses(a, tmp)
+            if t['func'].get('indirect'):
+                _op_uses(t['func']['indirect'], tmp)
+            if t['dest']['p']:
+                _place_uses(t['dest'], tmp)
+            if t['t'] is not None:
+                succ[i] = [t['t']]
+        elif k == 'assert':
+            _op_uses(t['cond'], tmp)
+            succ[i] = [t['t']]
+        elif k == 'drop':
+            _place_uses(t['place'], tmp)
+            succ[i] = [t['t']]
+        elif k == 'goto':
+            succ[i] = [t['t']]
+        elif k == 'return':
+            tmp.add(0)
+        add_uses(tmp)
+        if k == 'call' and not t['dest']['p']:
+            d.add(t['dest']['l'])
+        use[i], defs[i] = u, d
+    live_in = [set() for _ in range(n)]
+    changed = True
+    while changed:
+        changed = False
+        for i in range(n - 1, -1, -1):
+            out = set()
+            for sx in succ[i]:
+                out |= live_in[sx]
+            new = use[i] | (out - defs[i])
+            if new != live_in[i]:
+                live_in[i] = new
+                changed = True
+    _LIVE_CACHE[key] = (live_in, borrowed)
+    return _LIVE_CACHE[key]
+
+
 class Interp:
     def __init__(self, crates, rule=None, max_depth=40, max_worlds=200000):
         """crates: list of facts.Crate searched in order for function bodies."""
@@ -372,6 +484,7 @@ class Interp:
         self.memo = {}
         self._promoted = {}
         self._fn = None
+        self._budget = 0
         self.ctx_site = None     # (site, span) of the outermost call into a rule-declared transparent wrapper
         from . import models
         self.models = models.MODELS
@@ -486,6 +599,9 @@ class Interp:
                     if j == i:
                         return x
                 return TOP
+            if v[0] == 'int' and i == 0:
+                # a struct constant with scalar ABI (nested single-scalar newtype): its field is the scalar
+                return v
             return TOP
         if k == 'i':
             n = p[1]
@@ -630,6 +746,9 @@ class Interp:
         ty = c['ty']
         if isinstance(v, dict):
             if 'int' in v:
+                if ty.get('k') == 'adt':
+                    w_ = self._wrap_scalar(ty, const_int(v['int']))
+                    return w_ if w_ != TOP else const_int(v['int'])
                 return const_int(v['int'])
             if 'bytes' in v and ty.get('k') == 'ref':
                 return ('cstr', bytes(v['bytes']))
@@ -658,6 +777,25 @@ class Interp:
             return UNIT
         return TOP
 
+    def _wrap_scalar(self, ty, val, depth=0):
+        """A scalar constant of a newtype-like struct (e.g. bitflags constants): rebuild the nesting from ADT facts."""
+        if ty.get('k') != 'adt' or depth > 4:
+            return val
+        np_ = F.norm_path(ty['path'])
+        a = self.adts.get(np_)
+        if a is not None and a['kind'] == 'struct' and len(a['variants'][0]['fields']) == 1 \
+                and a['variants'][0]['fields'][0]['ty'].get('k') not in ('adt', 'int', 'bool', 'char'):
+            return val      # field type not resolvable here (alias): keep the scalar, field reads see through it
+        if a is None or a['kind'] != 'struct' or len(a['variants'][0]['fields']) != 1:
+            if a is not None and a['kind'] == 'enum':
+                n = int_singleton(val)
+                for idx, v in enumerate(a['variants']):
+                    if v['discr'] == n and not v['fields']:
+                        return ('adt', np_, idx, ())
+            return TOP
+        inner = self._wrap_scalar(a['variants'][0]['fields'][0]['ty'], val, depth + 1)
+        return ('adt', np_, 0, (inner,))
+
     def operand(self, w, depth, o):
         k = o['k']
         if k in ('copy', 'move'):
@@ -676,6 +814,11 @@ class Interp:
         """-> list of (world, value)"""
         k = rv['k']
         if k == 'use':
+            if self.rule is not None and hasattr(self.rule, 'on_load') and rv['op']['k'] in ('copy', 'move') \
+                    and any(e['k'] == 'index' for e in rv['op']['place']['p']):
+                r = self.rule.on_load(self, w, depth, rv['op']['place'])
+                if r is not None:
+                    return r
             return [(w, self.operand(w, depth, rv['op']))]
         if k == 'ref' or k == 'rawptr':
             t = self.resolve(w, depth, rv['place'])
@@ -858,6 +1001,7 @@ class Interp:
     def run(self, fn, args, st, store=None):
         """Analyse `fn` from an initial world; returns list of (World, return value)."""
         depth = 0
+        self._budget = 0
         s = dict(store or {})
         for i, a in enumerate(args):
             s[(depth, i + 1)] = a
@@ -875,14 +1019,24 @@ class Interp:
         seen = set()
         work = [(0, w)]
         exits = {}
+        live_in, borrowed = liveness(fn)
         while work:
             bb, cw = work.pop()
+            # forget locals that are dead at this block (they cannot influence anything that follows)
+            lv = live_in[bb]
+            dead = [k for k in cw.store if k[0] == depth and k[1] not in lv and k[1] not in borrowed]
+            if dead:
+                s2 = dict(cw.store)
+                for k in dead:
+                    del s2[k]
+                cw = World(s2, cw.st)
             key = (bb, cw.key())
             if key in seen:
                 continue
             seen.add(key)
             self.stats['worlds'] += 1
-            if self.stats['worlds'] > self.max_worlds:
+            self._budget += 1
+            if self._budget > self.max_worlds:
                 raise Inconclusive("world budget exceeded in " + fn.npath)
             for nbb, nw in self.step_block(fn, bb, cw, depth):
                 if nbb is None:
@@ -906,6 +1060,12 @@ class Interp:
                 nxt = []
                 for cw in worlds:
                     for w2, v in self.eval_rvalue(cw, depth, s['rv'], fn):
+                        if self.rule is not None and hasattr(self.rule, 'on_store') \
+                                and any(e['k'] == 'index' for e in s['place']['p']):
+                            w3 = self.rule.on_store(self, w2, depth, s['place'], v, s)
+                            if w3 is not None:
+                                nxt.append(w3)
+                                continue
                         t = self.resolve(w2, depth, s['place'])
                         nxt.append(self.write(w2, t, v))
                 worlds = nxt
